@@ -237,6 +237,10 @@ def c01_catalogue(quick):
               U(4, path='/other/p4', outside=1), U(5, path='/docs-old/p5', outside=1)]
     np_sub[0]['links'].append(dict(to=5))
     out.append(scenario('noparent-subdir-start', np_sub, dict(noparent=1), N=1))
+    # HTML pages whose URL looks like a picture / whose query string ends like one: they are documents with links
+    media = [U(1, links=[2, 3]), U(2, path='/wiki/File:Sunset.jpg', links=[4]), U(3, path='/view.php?img=sunset.png', links=[5]),
+             U(4), U(5, path='/style.css.html', links=[6]), U(6)]
+    out.append(scenario('html-page-with-media-looking-url', media, N=1))
     # a URL that is linked AND the target of a same-host redirect / the target of two redirects
     out.append(scenario('redirect-target-also-linked', [U(1, links=[2, 3]), U(2, kind='redirect', rto=3), U(3, links=[1])], N=1))
     out.append(scenario('two-redirects-one-target', [U(1, links=[2, 3]), U(2, kind='redirect', rto=4), U(3, kind='redirect', rto=4),
@@ -425,6 +429,9 @@ def c20_catalogue(quick):
              U(5), U(6), U(7)]
     for n in (1, 2):
         out.append(scenario('robots-rules-N%d' % n, basic, dict(robots=1, pagereq=1), N=n, robots=rules))
+    # a nofollow page written without the optional <html> tag, with prose that contains "var" / "function"
+    bare = [U(1, links=[2, 3]), U(2, nofollow=1, bare=1, links=[4, dict(to=5, inline=1)]), U(3, bare=1, links=[6]), U(4), U(5), U(6)]
+    out.append(scenario('robots-nofollow-page-without-html-tag', bare, dict(robots=1, pagereq=1), N=1, robots=rules))
     out.append(scenario('robots-missing', basic, dict(robots=1, pagereq=1), N=1, robots={'a.test': {'kind': 'missing'}}))
     out.append(scenario('robots-off', basic, dict(robots=0, pagereq=1), N=1, robots=rules))
     out.append(scenario('robots-error500', [U(1, links=[2]), U(2)], dict(robots=1, tries=2), N=1,
